@@ -61,6 +61,12 @@ class Folder:
                 r = self.model.effective_assign(cls.qualname, e.id)
                 if r is not None:
                     return self._fold_named(r[1], r[0].module, r[0], (r[0].qualname, e.id))
+                for c in cls.mro or [cls.qualname]:
+                    if c + '.' + e.id in self.model.classes:
+                        return ClassRef(c + '.' + e.id)
+                # enclosing class scope is not visible in Python, but module level is
+            if e.id in mod.classes:
+                return ClassRef(mod.classes[e.id].qualname)
             if e.id in mod.assigns:
                 return self._fold_named(mod.assigns[e.id], mod, None, (mod.name, e.id))
             if e.id in mod.imports:
@@ -204,6 +210,8 @@ class Folder:
             cur = ClassRef(cls.qualname)
         elif cls is not None and self.model.effective_assign(cls.qualname, head) is not None and len(parts) == 1:
             return self.class_attr(cls.qualname, head)
+        elif cls is not None and any(c + '.' + head in self.model.classes for c in (cls.mro or [cls.qualname])):
+            cur = ClassRef(next(c + '.' + head for c in (cls.mro or [cls.qualname]) if c + '.' + head in self.model.classes))
         elif head in mod.classes:
             cur = ClassRef(mod.classes[head].qualname)
         elif head in mod.imports:
